@@ -59,6 +59,10 @@ func init() {
 					for c := 0; c < 6+g.pick(10); c++ {
 						ts = append(ts, g.tree())
 					}
+					// short strings of equal length and equal CRC-32, one per codec loop (and both in one frame)
+					pair := []string{"plumless", "buckeroo"}
+					ts = append(ts, []rscp.Message{{Tag: rscp.INFO_SERIAL_NUMBER, DataType: rscp.CString, Value: pair[(i/2)%2]}},
+						[]rscp.Message{{Tag: rscp.INFO_SERIAL_NUMBER, DataType: rscp.CString, Value: pair[(i/2+1)%2]}, {Tag: rscp.INFO_PRODUCTION_DATE, DataType: rscp.CString, Value: pair[(i/2)%2]}})
 					sessions = append(sessions, sess{key: string(g.bytes(1 + g.pick(32)))})
 					trees = append(trees, ts)
 				}
@@ -69,6 +73,13 @@ func init() {
 			// and put it back — afterwards it is what it was
 			lvlBefore := rscp.Log.GetLevel()
 			rscp.Log.SetLevel(logrus.WarnLevel)
+			// one prepared request list handed to every goroutine (a poll request kept in a package-level variable): the send
+			// path only reads it. It has an item whose data type was left out, top level and nested
+			sharedReqs := []rscp.Message{{Tag: rscp.INFO_REQ_UTC_TIME, DataType: rscp.None},
+				{Tag: rscp.BAT_REQ_DATA, DataType: rscp.Container, Value: []rscp.Message{{Tag: rscp.BAT_INDEX, Value: uint16(round)}, {Tag: rscp.BAT_REQ_RSOC, DataType: rscp.None}}},
+				{Tag: rscp.EMS_REQ_SET_ERROR_BUZZER_ENABLED, Value: true}}
+			sharedBefore := fmt.Sprintf("%#v", sharedReqs)
+			sharedRes := make([]string, k)
 			var wg sync.WaitGroup
 			start := make(chan struct{})
 			for i := 0; i < k; i++ {
@@ -76,6 +87,14 @@ func init() {
 				go func(i int) {
 					defer wg.Done()
 					<-start
+					func() {
+						defer func() {
+							if r := recover(); r != nil {
+								sharedRes[i] = "panic"
+							}
+						}()
+						sharedRes[i] = fmt.Sprint(rscp.VerifValidateRequests(sharedReqs))
+					}()
 					if i%2 == 0 {
 						sp := sessions[i]
 						s, err := newSession(sp.user, sp.pw, sp.key, 150*time.Millisecond, 1)
@@ -130,6 +149,18 @@ func init() {
 				cw.add("skip", "skip", "N conc logger-level", fmt.Sprintf("FAIL C17 after concurrent sessions the shared logger level is %v, it was set to warning", l))
 			}
 			rscp.Log.SetLevel(lvlBefore)
+			{
+				prop := "pass"
+				if after := fmt.Sprintf("%#v", sharedReqs); after != sharedBefore {
+					prop = "FAIL C17 a request list shared by concurrent callers is modified by validating it: " + trunc(after, 200)
+				}
+				for i := 1; i < k; i++ {
+					if sharedRes[i] != sharedRes[0] && prop == "pass" {
+						prop = fmt.Sprintf("FAIL C17 concurrent callers validating the same request list get different answers: %q and %q", trunc(sharedRes[0], 80), trunc(sharedRes[i], 80))
+					}
+				}
+				cw.add("skip", "skip", "N conc shared-request", prop)
+			}
 			for i := 0; i < k; i++ {
 				for _, o := range results[i] {
 					cw.add(o.op, o.impl, o.label, o.prop)
